@@ -38,9 +38,9 @@ var subImpls = []string{
 
 type bitset []uint64
 
-func newBitset(n int) bitset         { return make(bitset, (n+63)/64) }
-func (b bitset) set(i int)           { b[i/64] |= 1 << (uint(i) % 64) }
-func (b bitset) get(i int) bool      { return b[i/64]&(1<<(uint(i)%64)) != 0 }
+func newBitset(n int) bitset    { return make(bitset, (n+63)/64) }
+func (b bitset) set(i int)      { b[i/64] |= 1 << (uint(i) % 64) }
+func (b bitset) get(i int) bool { return b[i/64]&(1<<(uint(i)%64)) != 0 }
 func (b bitset) subsetOf(o bitset) (bool, int) {
 	for w := range b {
 		if d := b[w] &^ o[w]; d != 0 {
